@@ -738,6 +738,17 @@ def cell_level(chk: Check, cellmap: Dict[str, Tuple[str, Any]], programs: Dict[A
                 continue
             fn = f"{PARSER}:_validate_pandas"
             sql = L.native_many(prog, list(strs), pool)
+            if tname == "Date" and kind == "df":
+                # a value with 'T' / ' ' at index 10 makes register_dataframes create a TIMESTAMP column: those strings go
+                # through the statements extracted for such a column
+                comps_ = L.components(tname, "Measure", True)
+                prog_ts = loadvc.extract_program("df", comps_, {c: "VARCHAR" for c in comps_}, sample={X: ["2020-01-15 10:00:00"]})
+                idx = [i for i, s in enumerate(strs) if len(s) > 10 and s[10] in "T "]
+                if prog_ts.error is None and prog_ts.col_types.get(X) == "TIMESTAMP":
+                    for i, r in zip(idx, L.native_many(prog_ts, [strs[i] for i in idx], pool)):
+                        sql[i] = r
+                else:
+                    chk.fault(f"could not extract the TIMESTAMP variant of the Date DataFrame program: {prog_ts.error!r}")
             bad: Dict[str, Tuple[Any, str]] = {}
             for s, r in zip(strs, sql):
                 p = native_cell(cellmap, tname, s)
@@ -765,7 +776,7 @@ def cell_level(chk: Check, cellmap: Dict[str, Tuple[str, Any]], programs: Dict[A
             for s, (v0, r0, vs, rs_) in zip(sample, res):
                 pc = native_cell(cellmap, tname, s)[0]
                 sc = dict(zip(strs, sql))[s][0]
-                if (v0, r0) != (pc, sc) and not (tname == "Date" and kind == "df" and r0 != sc):
+                if (v0, r0) != (pc, sc):
                     chk.fault(f"cell-level and API-level verdicts differ on {s!r} ({tname}/{kind}): cell ({pc}, {sc}), "
                               f"API (validate_dataset {vs}; run() {rs_})")
                     return
